@@ -470,8 +470,9 @@ def resolveConflicts(actions, state=None):
 
             else:
                 output.append(ainfo)
+                basepath, baseinfo = action['includepath'], action['info']
 
-            basepath, baseinfo = action['includepath'], action['info']
+            # "rest" is compared with the action that runs (or already ran)
             for _, action in rest:
                 includepath = action['includepath']
                 # Test whether path is a prefix of opath
